@@ -2,7 +2,7 @@
 import itertools, json
 import vlib, phaselib as pl
 
-IMPORTS = "From PKO Require Import Base Owner Api Phase.\nFrom PKOCorr Require Import PhaseCorr C01Corr C02Corr C05Corr."
+IMPORTS = "From PKO Require Import Base Owner Api Phase.\nFrom PKOCorr Require Import PhaseCorr C01Corr C02Corr C05Corr PhaseMonitors."
 
 
 def table(tier):
